@@ -1381,6 +1381,17 @@ def degenerate_svd(est):
     """SVD based models (embedding_ = U * S): when a requested component has a (relatively) vanishing singular value,
     or two singular values coincide, the singular vectors are decided by rounding noise and 'the same model to 1e-9'
     is not a meaningful claim; such fits are counted, not compared."""
+    cs = getattr(est, "component_scaling_", None)
+    if isinstance(cs, np.ndarray) and cs.ndim == 1 and cs.size and np.all(np.isfinite(cs)):
+        # CountFeatureCompressionTransformer: component_scaling_ = sqrt(singular values), no embedding_ attribute
+        comp = getattr(est, "components_", None)
+        if isinstance(comp, np.ndarray) and comp.ndim == 2 and comp.shape[0] == comp.shape[1] \
+                and np.array_equal(comp, np.eye(comp.shape[0])):
+            return False                                  # the no-compression branch: the model is exact
+        sv = np.sort(np.abs(cs) ** 2)[::-1]
+        if sv[0] == 0 or sv[-1] < 1e-6 * sv[0]:
+            return True
+        return bool(np.any(np.abs(np.diff(sv)) < 1e-6 * sv[0]))
     E = getattr(est, "embedding_", None)
     if not isinstance(E, np.ndarray) or E.ndim != 2 or min(E.shape) == 0 or not np.all(np.isfinite(E)):
         return False
